@@ -1,3 +1,4 @@
+import Svgbob.Proofs.LegendDoc
 import Svgbob.Model.Doc
 import Svgbob.Model.Front
 /-!
@@ -204,5 +205,30 @@ example : parseCssLegend "# Legend:\na = {fill:red}\nb_1={x: \"q\";\n y}\n".toLi
     some [("a".toList, "fill:red".toList), ("b_1".toList, "x: \"q\";\n y".toList)] := by decide
 example : parseCssLegend "# Legend: x".toList = none := by decide
 example : (Frag.text ⟨0, 0⟩ "{a,b}".toList).asCssTag = ["a".toList, "b".toList] := by decide
+
+/-! ### the whole conversion of a drawing followed by a legend -/
+
+theorem legendText_starts_with_the_marker (es : List (List Char × List Char)) :
+    legendMarker.isPrefixOf (legendText es) = true := by
+  have hm : legendMarker = ['#', ' ', 'L', 'e', 'g', 'e', 'n', 'd', ':'] := by decide
+  cases es with
+  | nil => rw [hm]; simp [legendText]
+  | cons e es => rw [hm]; simp [legendText]
+
+/-- **a drawing followed by a legend** (`Model/Convert.convertDoc`, the function the driver serializes):
+for a body without `#` and any number of well-formed entries, the document is the document of the
+body alone with exactly those entries, in order, as the legend rules of the style sheet — the legend
+block is never drawn, nothing of the drawing is lost -/
+theorem whole_conversion_of_a_drawing_with_a_legend (env : Env) (cfg : Cfg) (cat : Catalogue)
+    (body : List Char) (es : List (List Char × List Char)) (hb : '#' ∉ body)
+    (hes : ∀ e ∈ es, ValidEntry e) :
+    convertDoc env cfg cat (body ++ legendText es) =
+      match endorseAll (segColumns env) cat (front env body).cells (front env body).escaped with
+      | none => none
+      | some (fs, gs) =>
+        some (svgRoot (segColumns env) cfg (front env body).cells es (fs.map (·.frag))
+          (gs.map fun g => g.map (·.frag))) :=
+  convertDoc_body_then_legend env cfg cat body (legendText es) es hb
+    (legendText_starts_with_the_marker es) (legend_roundtrip es hes)
 
 end Svgbob.C16
